@@ -3,7 +3,7 @@
 import json
 import os
 
-from common import CACHE, ensure_oracle, log, run_harness, run_tlc, tool_error
+from common import nl_lines, CACHE, ensure_oracle, log, run_harness, run_tlc, tool_error
 
 
 def write_cfg(text, tag):
@@ -83,7 +83,7 @@ def replay(chk, mc, name, harness_args=(), classify=None, need_oracle=False):
     out, t = run_harness(args, timeout=3600)
     summary = None
     mism = []
-    for line in out.splitlines():
+    for line in nl_lines(out):
         if not line.startswith("{"):
             continue
         d = json.loads(line)
